@@ -555,5 +555,67 @@ func TestVerifC18(t *testing.T) {
 		c18Samples(t, r, dir)
 	}
 	c18Product(t, r, dir)
+	if shard == 1%shardsOfC18() {
+		c18PluginNumbers(t, r, dir)
+	}
 	c18Binary(t, r, dir)
+}
+
+func shardsOfC18() int {
+	_, n := shardOf()
+	if n < 1 {
+		return 1
+	}
+	return n
+}
+
+// c18PluginNumbers: numeric plugin options in every way YAML writes a number - integers of
+// several magnitudes, floats with a zero fraction, floats in exponent notation (what an
+// emitter prints for 1e6 and above) - for every numeric option of the built-in plugins. A
+// spelling of a documented-valid value must load and build; a value that violates the
+// option's documented constraint (non-positive limit, level outside -1..9, not a number)
+// must prevent start-up.
+func c18PluginNumbers(t *testing.T, r *vres.Report, dir string) {
+	start := time.Now()
+	var evals int64
+	var outs vres.Outcomes
+	type opt struct {
+		plugin, key string
+		rest        string   // the plugin's other mandatory options
+		valid       []string // spellings of valid values
+		invalid     []string
+	}
+	magnitudes := []string{"1", "64", "1024", "65536", "999999", "1000000", "1048576", "10485760", "52428800", "2147483648",
+		"1.0", "1024.0", "999999.0", "1000000.0", "1048576.0", "2097152.0", "1e3", "1e6", "1.5e6", "1e+06", "1.048576e+06", "2.097152e+06", "1e7", "5.24288e+07", "1E6", "0x400", "0o2000", "1_000_000"}
+	opts := []opt{
+		{plugin: "gzip", key: "min_size", rest: "        level: 5\n        content_types: [\"text/\"]\n", valid: append([]string{"0", "0.0"}, magnitudes...), invalid: []string{"abc", "[1]", "true", "~"}},
+		{plugin: "gzip", key: "level", rest: "        min_size: 64\n        content_types: [\"text/\"]\n", valid: []string{"-1", "0", "1", "5", "9", "-1.0", "0.0", "5.0", "9.0", "9e0", "0x9"}, invalid: []string{"10", "-2", "10.0", "1e1", "100", "abc", "~"}},
+		{plugin: "size_limit", key: "max_request_body", rest: "", valid: magnitudes, invalid: []string{"0", "-1", "0.0", "-1024.0", "-1e6", "abc", "true"}},
+		{plugin: "size_limit", key: "max_response_body", rest: "", valid: magnitudes, invalid: []string{"0", "-1", "0.0", "-1024.0", "-1e6", "abc", "true"}},
+	}
+	for _, o := range opts {
+		rest := o.rest
+		for vi, group := range [][]string{o.valid, o.invalid} {
+			for _, val := range group {
+				y := c18Base + "plugins:\n  enabled: true\n  chain:\n    - name: " + o.plugin + "\n      config:\n        " + o.key + ": " + val + "\n" + rest
+				evals++
+				cfg, err := c18Load(dir, "num.yaml", y)
+				if err == nil {
+					err = c18Build(cfg)
+				}
+				desc := fmt.Sprintf("%s.%s: %s", o.plugin, o.key, val)
+				outs.Add(fmt.Sprintf("%s.%s/%v/%v", o.plugin, o.key, vi == 0, err == nil))
+				if vi == 0 && err != nil {
+					r.Violate("C18/valid-plugin-number-rejected/"+o.plugin+"."+o.key, fmt.Sprintf("%s is a valid value as YAML writes it, but start-up fails: %v", desc, err), len(val), map[string]interface{}{"yaml": y})
+				}
+				if vi == 1 && err == nil {
+					r.Violate("C18/invalid-plugin-number-accepted/"+o.plugin+"."+o.key, fmt.Sprintf("%s violates the option's documented constraint, but the configuration loads and the chain builds", desc), len(val), map[string]interface{}{"yaml": y})
+				}
+			}
+		}
+	}
+	r.AddScenario(vres.Scenario{Name: "plugin-number-spellings", Engine: "W", Evaluations: evals, Distinct: int64(outs.N()), Outcomes: outs.N(),
+		Rule:  "one evaluation = one configuration file loaded with the real LoadConfig and built like main() does; distinct = (option, presented as valid, accepted) classes",
+		Bound: "4 numeric plugin options x every listed spelling (integers up to 2^31, zero-fraction floats, exponent notation, hex / octal / underscore integers) + the values each option documents as invalid", Exhaustive: true,
+		Extra: map[string]interface{}{"wall_s": time.Since(start).Seconds()}})
 }
